@@ -422,7 +422,7 @@ Section CHAIN2.
     - cbn. rewrite Hs, Ht. auto.
   Qed.
 
-  (* why `guarded` admits only pass-through wrappers before BasicAuth: a middleware that may answer on its own does so
+  (* why `guarded` allows only pass-through wrappers before BasicAuth: a middleware that may answer on its own does so
      without BasicAuth ever seeing the request *)
   Lemma answering_wrapper_short_circuits : forall n rest q st, other n q = Some st ->
     serve ce login pass other h (MwOther n :: rest) q =
